@@ -2437,9 +2437,24 @@ func VerifDeterminism(n int) {
 	pi := verifapi.Concrete(verifapi.Int("program", 0, len(verifDetPrograms)-1))
 	mi := verifapi.Concrete(verifapi.Int("mode", 0, len(verifDetModes)-1))
 	prog := verifDetPrograms[pi]
-	mode := verifDetModes[mi]
-	src := prog.text
-	row := verifCountLines(src) // last line (a call)
+	verifDetRun(prog.text, prog.name, verifDetModes[mi])
+}
+
+var verifCorpusDetModes = []string{"-i", "--suggest", "--hover", "--llm-nav", "--llm-define", "--llm-class", "--define", "", "--llm-nav --all"}
+
+// VerifCorpusDeterminism: the same two-runs-under-flipped-map-orders comparison on the
+// repository's example programs.
+func VerifCorpusDeterminism(n int) {
+	src, name := verifCorpusPick()
+	mi := verifapi.Concrete(verifapi.Int("mode", 0, len(verifCorpusDetModes)-1))
+	verifDetRun(src, "example-"+name, verifCorpusDetModes[mi])
+}
+
+// verifDetRun: one program in one output mode, run twice from the same state with the
+// iteration order of the global maps flipped in between; the outputs must be identical
+// (--define: identical as sets of lines).
+func verifDetRun(src, progName, mode string) {
+	row := verifCountLines(src) // last line
 	flags := cmd.NewExecuteFlags()
 	args := []string{"ti", "./a.rb"}
 	for _, f := range strings.Fields(mode) {
@@ -2470,7 +2485,7 @@ func VerifDeterminism(n int) {
 	target := 0
 	if flags.IsSuggest || flags.IsHover || flags.IsDefineAllInfo {
 		target = row
-		args = append(args, "--row="+verifItoa(row))
+		args = append(args, "--row="+verifRowText(row))
 	}
 	os.Args = args
 	verifapi.Witness("src", src)
@@ -2489,7 +2504,7 @@ func VerifDeterminism(n int) {
 	if modeName == "" {
 		modeName = "diagnostics"
 	}
-	verifapi.Classify("C05/output-depends-on-map-iteration-order/" + strings.ReplaceAll(modeName, " ", "_") + "/" + prog.name)
+	verifapi.Classify("C05/output-depends-on-map-iteration-order/" + strings.ReplaceAll(modeName, " ", "_") + "/" + progName)
 	if flags.IsDefineAllInfo {
 		verifapi.Assert(verifSortLines(outA) == verifSortLines(outB), "C05-same-output")
 	} else {
